@@ -81,6 +81,14 @@ impl<'transient, 'lifespan: 'transient> FormulaParser {
         Ok(elt)
     }
 
+    fn check_isotope(elt: &Element, isotope: u16) -> Result<u16, FormulaParserError> {
+        if isotope == 0 || elt.isotopes.contains_key(&isotope) {
+            Ok(isotope)
+        } else {
+            Err(FormulaParserError::IsotopeCountMalformed)
+        }
+    }
+
     pub fn parse_element_count(&mut self, string: &str) -> Result<i32, ParseIntError> {
         let count_parse = string[self.count_start..self.count_end].parse::<i32>();
         self.count_start = 0;
@@ -200,7 +208,7 @@ impl<'transient, 'lifespan: 'transient> FormulaParser {
                         let elt = self.parse_element_from_string(string, periodic_table)?;
                         let elt_spec = ElementSpecification {
                             element: elt,
-                            isotope,
+                            isotope: Self::check_isotope(elt, isotope)?,
                         };
                         acc.inc(elt_spec, count);
                         self.isotope_start = 0;
@@ -233,7 +241,7 @@ impl<'transient, 'lifespan: 'transient> FormulaParser {
                             };
                         let elt_spec = ElementSpecification {
                             element: elt,
-                            isotope,
+                            isotope: Self::check_isotope(elt, isotope)?,
                         };
                         acc.inc(elt_spec, 1);
                         self.isotope_start = 0;
@@ -340,7 +348,7 @@ impl<'transient, 'lifespan: 'transient> FormulaParser {
                 let elt = self.parse_element_from_string(string, periodic_table)?;
                 let elt_spec = ElementSpecification {
                     element: elt,
-                    isotope,
+                    isotope: Self::check_isotope(elt, isotope)?,
                 };
                 acc.inc(elt_spec, count);
             }
@@ -355,7 +363,7 @@ impl<'transient, 'lifespan: 'transient> FormulaParser {
                 };
                 let elt_spec = ElementSpecification {
                     element: elt,
-                    isotope,
+                    isotope: Self::check_isotope(elt, isotope)?,
                 };
                 acc.inc(elt_spec, 1);
             }
